@@ -525,6 +525,48 @@ def r118(facts, res):
         res.ok(R, 'engine-escapes', '', 'RE_LEX_ESC_LITERAL = %s matches all %d escape forms the regex engine interprets' % (lit, len(ENGINE_ESCAPES)))
 
 
+def pieces_guarded_in_loop(facts, b):
+    """the pieces of a regex Split are consumed by a loop calling next() on it, and on every path of the loop body on which the
+    piece is handed to anything but an emptiness/length/address query, `piece.is_empty()` was found false (or its length non-zero)"""
+    from lrstep import is_call, widening_walker, loop_assigned
+    loops = b.loops()
+    nexts = [(bb, t) for bb, t in b.calls_named('next') if 'Split' in (callee_of(t).get('self_ty') or '') and 'regex' in (callee_of(t).get('self_ty') or '').lower()]
+    if len(nexts) != 1:
+        return False
+    nb, nt = nexts[0]
+    inl = sorted((h for h in loops if nb in loops[h]), key=lambda h: len(loops[h]))
+    if not inl:
+        return False
+    h = inl[0]
+    w = widening_walker(b, facts, max_paths=4096)
+    w.widen_headers = set(loops) - {h}
+    w.widen_assigned = {x: loop_assigned(b, x) for x in w.widen_headers}
+    ps = w.run(h, stop=lambda x: x not in loops[h])
+    if w.overflow or not ps:
+        return False
+    QUERY = ('is_empty', 'len', 'as_ptr')
+    for p in ps:
+        nx = [e for e in p.events if e[0] == 'call' and e[1] == nb]
+        if not nx:
+            continue
+        piece = ('field', ('downcast', nx[0][5], 1, 'Some'), 0, '0')
+        isp = lambda x: x == piece
+        used = [e for e in p.events if e[0] == 'call' and e[1] != nb and e[2] and e[2]['name'] not in QUERY and any(term_has(a, isp) for a in e[3])]
+        if not used:
+            continue
+        ok = False
+        for c, v in p.conds:
+            if is_call(c, 'is_empty') and term_has(c, isp) and v == 0:
+                ok = True
+            if c[0] == 'bin' and c[1] == 'Eq' and v == 0 and term_has(c, isp) and term_has(c, lambda x: is_call(x, 'len')) and ('const', 0) in (c[2], c[3]):
+                ok = True
+            if c[0] == 'bin' and c[1] == 'Lt' and v == 1 and c[2] == ('const', 0) and term_has(c[3], isp) and term_has(c[3], lambda x: is_call(x, 'len')):
+                ok = True
+        if not ok:
+            return False
+    return True
+
+
 def r119(facts, res):
     """Items separated by "one or more blanks" (start-state names of a %s / %x declaration): when the text is cut with
     Regex::split on a separator regex that matches exactly ONE character, two separators in a row yield an empty piece - the
@@ -554,8 +596,12 @@ def r119(facts, res):
             import re as _re
             repeatable = lit.rstrip().endswith(('+', '*')) or bool(_re.search(r'\{\d+,\d*\}$', lit.rstrip()))
             holds, adapters, consumers = c15.flow(b, t['dest']['l'])
-            if repeatable or 'filter' in adapters or 'filter_map' in adapters:
-                res.ok(R, key, loc_of(b, bb), 'pieces cut by `%s` %s' % (lit, 'cannot be empty between two separators' if repeatable else 'pass a filter before use'))
+            guarded = False
+            if not (repeatable or 'filter' in adapters or 'filter_map' in adapters):
+                guarded = pieces_guarded_in_loop(facts, b)
+            if repeatable or 'filter' in adapters or 'filter_map' in adapters or guarded:
+                res.ok(R, key, loc_of(b, bb), 'pieces cut by `%s` %s' % (lit, 'cannot be empty between two separators' if repeatable else
+                                                                         'are tested for emptiness in the loop before any use' if guarded else 'pass a filter before use'))
             else:
                 res.bad(R, key, loc_of(b, bb), 'the text is cut with Regex::split on `%s`, which matches one character: two separators in a row produce an empty piece that is then '
                         'treated as a name (`%%s a  b` is rejected as "invalid start state name" although names are separated by one OR MORE blanks)' % lit, {'function': b.path})
